@@ -14,6 +14,7 @@ use serde_json::json;
 
 pub struct C01 {
     enumerated: Option<Vec<Vec<Stmt>>>,
+    corpus: Vec<CorpusCase>,
 }
 
 pub struct CorpusCase {
@@ -82,7 +83,7 @@ pub fn corpus() -> Vec<CorpusCase> {
 
 impl C01 {
     pub fn new() -> Self {
-        C01 { enumerated: None }
+        C01 { enumerated: None, corpus: corpus() }
     }
 
     fn enum_budget(ctx: &Ctx) -> usize {
@@ -108,7 +109,7 @@ impl C01 {
             (_, Tier::Quick) => 1_500,
             (_, Tier::Thorough) => 30_000,
         };
-        let mut f = vec![("corpus", corpus().len() as u64), ("enumerated", n_enum)];
+        let mut f = vec![("corpus", self.corpus.len() as u64), ("enumerated", n_enum)];
         for p in PROFILES {
             f.push((p.name(), per_profile));
         }
@@ -144,7 +145,7 @@ impl Check for C01 {
         let cfg = default_cfg(ctx);
         if fam == "corpus" {
             let (_, _, i) = self.fams(ctx).locate(idx);
-            let c = &corpus()[i as usize];
+            let c = &self.corpus[i as usize];
             let mut cc = cfg.clone();
             cc.budget = Some(200_000_000);
             let o = eval_observed(&c.text, &cc);
@@ -251,7 +252,7 @@ impl C01 {
     pub fn case_text(&mut self, ctx: &Ctx, idx: u64) -> (&'static str, String) {
         let (f, name, i) = self.fams(ctx).locate(idx);
         match name {
-            "corpus" => (name, corpus()[i as usize].text.clone()),
+            "corpus" => (name, self.corpus[i as usize].text.clone()),
             "enumerated" => {
                 let p = self.enumerated(ctx)[i as usize].clone();
                 (name, to_text(&p))
